@@ -25,15 +25,17 @@ func (c Config) String() string { return c.GOARCH + "/" + c.Tags }
 
 // Prog is the loaded, type-checked and SSA-built program for one Config.
 type Prog struct {
-	Cfg   Config
-	Dir   string
-	Fset  *token.FileSet
-	Pkgs  []*packages.Package // module packages only
-	All   []*packages.Package // every package in the import graph
-	SSA   *ssa.Program
-	Stun  *ssa.Package
-	Hmac  *ssa.Package
-	funcs []*ssa.Function // all module functions (incl. anonymous), deterministic order
+	globalTables map[*ssa.Global]*globalTable
+	globWriters  map[*ssa.Global][]ssa.Instruction
+	Cfg          Config
+	Dir          string
+	Fset         *token.FileSet
+	Pkgs         []*packages.Package // module packages only
+	All          []*packages.Package // every package in the import graph
+	SSA          *ssa.Program
+	Stun         *ssa.Package
+	Hmac         *ssa.Package
+	funcs        []*ssa.Function // all module functions (incl. anonymous), deterministic order
 	// InlineInfo records the helper normalisation that was applied (nil: nothing to normalise).
 	InlineInfo map[string]interface{}
 	cg         *CallGraph
